@@ -23,6 +23,9 @@ fn main() {
     let argv: Vec<String> = std::env::args().skip(1).collect();
     let a = run::Args::parse(&argv);
     let cmd = a.pos.first().cloned().unwrap_or_default();
+    if a.has("transcript-digest") {
+        mon::TRANSCRIPT_DIGEST.store(true, std::sync::atomic::Ordering::Relaxed);
+    }
     if a.has("noforget") {
         base::NOFORGET.store(true, std::sync::atomic::Ordering::Relaxed);
     }
